@@ -209,6 +209,16 @@ Theorem C19_json_parses : forall (esc : bool) (h : hdr) (t : str) (named : optio
 Proof. exact json_sink_parses. Qed.
 Print Assumptions C19_json_parses.
 
+(* with newlines inside keys / values (and otherwise no byte that needs escaping) the line is
+   recognised as the JSON object holding the ORIGINAL keys and values: the escape backslash n decodes
+   to the newline *)
+Theorem C19_json_parses_nl : forall (h : hdr) (t : str) (named : option (list (str * str))),
+  hdr_ok plain_str h = true -> plain_str (no_newlines t) = true ->
+  pairs_ok (forallb (fun c => plain c || N.eqb c NL)) (opt_pairs named) = true ->
+  json_parse_line (json_sink_line src_json_esc h t named) = Some (members_of h t named).
+Proof. exact json_parses_nl_src. Qed.
+Print Assumptions C19_json_parses_nl.
+
 (* non-vacuity: the premises above are satisfiable together (examples closed by computation) *)
 Theorem C19_nonvacuous :
   (wf_tpl ex_tpl_adj = true /\ ok_adj ex_tpl_adj = false /\ first_hole_named ex_tpl_adj = true /\ has_hole ex_tpl_adj = true) /\
@@ -219,12 +229,13 @@ Theorem C19_nonvacuous :
    Forall (fun x => has_sep x = false) [B "10"; B "20"; B "30"; B "40"; B "50"]) /\
   (hdr_ok plain_str ex_hdr = true /\ hdr_ok no_nl ex_hdr = true /\
    pairs_ok plain_str [(B "x", B "10")] = true /\ pairs_ok no_nl [(B "x", B "10")] = true) /\
-  cache_ok src_scan_skip [].
+  cache_ok src_scan_skip [] /\
+  pairs_ok (forallb (fun c => plain c || N.eqb c NL)) [(B "k", [97; 10; 98]%N)] = true.
 Proof.
   exact (conj (conj (proj1 ex_tpl_adj_hyps) (conj (proj1 (proj2 ex_tpl_adj_hyps)) (conj (proj1 (proj2 (proj2 ex_tpl_adj_hyps))) (proj1 (proj2 (proj2 (proj2 ex_tpl_adj_hyps)))))))
         (conj (conj (proj1 ex_tpl_hyps) (conj (proj1 (proj2 ex_tpl_hyps)) (conj (proj1 (proj2 (proj2 ex_tpl_hyps))) (proj1 (proj2 (proj2 (proj2 ex_tpl_hyps)))))))
         (conj (conj (proj1 ex_pairs_hyps) (conj (proj1 (proj2 ex_pairs_hyps)) (proj1 (proj2 (proj2 ex_pairs_hyps)))))
         (conj (conj (proj1 ex_json_hyps) (conj (proj1 (proj2 ex_json_hyps)) (conj (proj1 (proj2 (proj2 (proj2 ex_json_hyps)))) (proj1 (proj2 (proj2 (proj2 (proj2 ex_json_hyps))))))))
-              cache_ok_nil_src)))).
+              (conj cache_ok_nil_src eq_refl))))).
 Qed.
 Print Assumptions C19_nonvacuous.
